@@ -419,7 +419,7 @@ fn mk(text: String, rng: &mut Rng, g: G) -> Case {
         text,
         le: LineEnding::Lf,
         tab: 4,
-        sc: 1 + 2 * rng.below(2),
+        sc: 1 + 2 * rng.below(4),
         filter: if rng.chance(3, 4) { Some(1) } else { None },
         sink: rng.chance(1, 2),
         nctx: 0,
